@@ -114,6 +114,14 @@ CHECKS = {
             'rationals; tiny configurations are recorded with a counting wrapper on the antenna (samples drawn, clock advance, SCANLEN, PKTIDX/PKTSTOP).',
             'finite value lists for rate/size parameters (the thorough tier is exhaustive over that product only); durations sampled',
             'DESIGN.md 3/C20'),
+    'C07': ('exploration',
+            'Hypothesis generated tones/chirps located in the recorded data by an independent parser + own fine channelisation, frequencies converted with the file\'s own header; reader/reducer differential vs own reduction',
+            'Generated recordings (rates, 8-64 branches, any start_chan/num_chans, 1-2 pols, 8/4 bit, both orientations, digitiser on/off) with one '
+            'tone or chirp in any recorded coarse channel but the DC one: the arg-max coarse/fine bin converted with OBSFREQ/OBSNCHAN/CHAN_BW of the file '
+            'must be within one fine bin of the tone, chirps must track f_start + drift*t; get_raw_params must return the antenna\'s fch1/chan_bw/orientation; '
+            'get_pfb_waterfall / get_waterfall_from_raw must equal an own reduction for padded, unpadded and aligned headers.',
+            'statistics estimated once from the first block (no per-sub-block mean removal); DC bin ignored for chirps; saturating 4-bit FWHM not generated',
+            'DESIGN.md 3/C07'),
 }
 
 ALL = [f'C{i:02d}' for i in range(1, 21)]
